@@ -4,6 +4,7 @@ import (
 	"bytes"
 	"encoding/json"
 	"fmt"
+	"regexp"
 	"strconv"
 	"strings"
 
@@ -418,6 +419,8 @@ func c06RunCase(c *Ctx, raw []byte) string {
 }
 
 // c06Exec builds the value once, then encodes it under every explored map order.
+var c06ShortCode = regexp.MustCompile(`^[0-9]{1,2}$`)
+
 func c06Exec(c *Ctx, cs c06Case) (outcome string) {
 	defer c.guardCase("encoding", cs, &outcome)
 	feat := map[string]string{"mode": cs.Mode, "target": cs.Target, "subject": cs.Subject}
@@ -543,6 +546,22 @@ func c06Exec(c *Ctx, cs c06Case) (outcome string) {
 	if p, _ := dupMember(first); p != "" {
 		viol("duplicate-member", p, "", tail(string(first), 400), "")
 		outcome = "duplicate-member"
+	}
+	// (3') a decoded document: the output may not hold members the decoded text did not have (what is lost or
+	// changed on the way is C01's business; a response code re-spelled without its leading zeros is the
+	// finding recorded there)
+	if cs.Mode == "doc" {
+		if in, err := parseJSON(cs.Doc); err == nil {
+			var ds []Diff
+			jsonDiff(in, mustParse(string(first)), "", &ds)
+			for _, d := range ds {
+				last := d.Pointer[strings.LastIndex(d.Pointer, "/")+1:]
+				if d.Expected == absent && !c06ShortCode.MatchString(last) {
+					viol("output-holds-a-member-the-model-does-not", d.Pointer, d.Expected, d.Observed, tail(string(first), 300))
+					outcome = "member-added"
+				}
+			}
+		}
 	}
 	// (3) the text parses to what the model holds
 	if expected != nil {
